@@ -362,9 +362,35 @@ def deep(f, d):
     return t
 
 
+def gen_midnil(rng):
+    """Joins whose function returns nil for elements in the MIDDLE of the left-hand sequence (after a non-empty
+    inner sequence, before another one): the retry loops of join/toSeq/fromSeq Next() are only exercised by these."""
+    n = rng.randrange(3, 6)
+    keys = [rng.randrange(0, 10) for _ in range(n)]
+    keys[rng.randrange(1, n - 1)] |= 1          # an odd key strictly inside
+    keys[0] &= ~1                               # first and last even: non-empty inner sequences around it
+    keys[-1] &= ~1
+    kind = rng.choice(["PJN", "PJN", "TS", "FS", "JN"])
+    if kind in ("PJN", "TS"):
+        lhs = ("PF", None, [keys[0], 10 + keys[0]], [])
+        for k in keys[1:]:
+            lhs = ("PPL", None, [], [lhs, ("PF", None, [k, 10 + k], [])])
+        if kind == "PJN":
+            body = ("PFI", "keven", [], [("PF", None, [(0, 0), (1, 5)], [])])
+        else:
+            body = ("FI", "even", [], [("F", None, [(0, 0)], [])])
+        return (kind, None, [], [lhs, body])
+    lhs = ("S", None, keys, [])
+    if kind == "FS":
+        body = ("PFI", "keven", [], [("PF", None, [(0, 0), (0, 10)], [])])
+    else:
+        body = ("FI", "even", [], [("F", None, [(0, 0)], [])])
+    return (kind, None, [], [lhs, body])
+
+
 def make_cases(ctx, boost):
     rng = ctx.rng
-    trees = []
+    trees = [gen_midnil(rng) for _ in range((1500 if ctx.thorough() else 150) * boost)]
     small = enumerate_small(3)
     if ctx.thorough():
         trees += small
